@@ -123,6 +123,11 @@ func (e *SpecEnv) resolveType(t *TypeExpr) (types.Type, error) {
 	return nil, fmt.Errorf("unknown type %s", t.String())
 }
 
+func (e *SpecEnv) resolveTypeIn(pkgPath string, t *TypeExpr) (types.Type, error) {
+	sub := e.vc.newEnv(pkgPath, nil)
+	return sub.resolveType(t)
+}
+
 func (e *SpecEnv) constObj(c *types.Const) tv {
 	d := e.vc.d
 	switch c.Val().Kind() {
@@ -236,7 +241,12 @@ func (e *SpecEnv) expr(x Expr) (tv, error) {
 			return tv{}, err
 		}
 		a, b = e.unify(a, b)
-		a, b = e.deref(a), e.deref(b)
+		if a.addr || b.addr {
+			// pointer-valued conditional: keep addresses as pointer values
+			a, b = asPtr(a), asPtr(b)
+		} else {
+			a, b = e.deref(a), e.deref(b)
+		}
 		return tv{t: ite(c, a.t, b.t), ty: pickType(a, b)}, nil
 	case *ELet:
 		v, err := e.expr(n.Val)
@@ -397,6 +407,14 @@ func pickType(a, b tv) types.Type {
 	return a.ty
 }
 
+// asPtr: an address-of-struct tv used as a pointer value (no load).
+func asPtr(a tv) tv {
+	if a.addr {
+		return tv{t: a.t, ty: a.ty}
+	}
+	return a
+}
+
 // deref: an address-of-struct tv used as a value is loaded.
 func (e *SpecEnv) deref(a tv) tv {
 	if a.addr {
@@ -493,7 +511,15 @@ func (e *SpecEnv) binary(n *EBinary) (tv, error) {
 			}
 		default:
 			if a.addr != b.addr {
-				a, b = e.deref(a), e.deref(b)
+				o := b
+				if b.addr {
+					o = a
+				}
+				if _, isPtr := o.ty.Underlying().(*types.Pointer); isPtr {
+					a, b = asPtr(a), asPtr(b)
+				} else {
+					a, b = e.deref(a), e.deref(b)
+				}
 			}
 			t = fmt.Sprintf("(= %s %s)", a.t, b.t)
 		}
@@ -820,7 +846,13 @@ func (e *SpecEnv) applyGhost(gf *GhostFunc, as []tv) (tv, error) {
 		return tv{}, fmt.Errorf("arity mismatch calling ghost %s", gf.Name)
 	}
 	var ts []string
-	for _, a := range as {
+	for i, a := range as {
+		if pt, err := e.resolveTypeIn(gf.PkgPath, gf.Params[i].T); err == nil {
+			if _, isPtr := pt.Underlying().(*types.Pointer); isPtr {
+				ts = append(ts, asPtr(a).t)
+				continue
+			}
+		}
 		ts = append(ts, e.deref(a).t)
 	}
 	for _, h := range gd.heaps {
